@@ -1010,8 +1010,13 @@ impl SetU32 {
                 } else {
                     // Let's keep things sparse
                     // A dense set will cost us memory
-                    let newcap =
-                        s.cap as usize + 1 + (crate::rand::rand32(s.cap, s.bits) % s.cap) as usize;
+                    // (The extra eighth keeps the new table from counting as full while
+                    // it is being refilled: otherwise a small random part makes the
+                    // refill grow again, one bucket per nested call.)
+                    let newcap = s.cap as usize
+                        + 1
+                        + s.cap as usize / 8
+                        + (crate::rand::rand32(s.cap, s.bits) % s.cap) as usize;
                     let mut new = Self::with_capacity_and_bits(newcap, s.bits);
                     // new.debug_me("initial new");
                     for v in self.iter() {
@@ -1072,8 +1077,11 @@ impl SetU32 {
                     return true;
                 }
                 // println!("no room in the set... {:?}", a);
-                let newcap =
-                    s.cap as usize + 1 + (crate::rand::rand32(s.cap, s.bits) % s.cap) as usize;
+                // (the extra eighth keeps the new table from counting as full, see above)
+                let newcap = s.cap as usize
+                    + 1
+                    + s.cap as usize / 8
+                    + (crate::rand::rand32(s.cap, s.bits) % s.cap) as usize;
                 let mut new = Self::with_capacity_and_bits(newcap, s.bits);
                 // new.debug_me("initial new");
                 match new.internal_mut() {
